@@ -80,6 +80,7 @@ type AllocInfo struct {
 	Weak   bool // contents no longer tracked (reads give arbitrary values)
 	Aliased bool // a pointer to it was stored somewhere or handed to a callee
 	MergedInto int // id+1 of the merge object that replaced it at a control-flow join (0: none)
+	GhostSort string // ghost cell (e.g. visited set of a map iteration): SMT sort of its content
 	Published bool // array published to the element heap via a Slice instruction
 }
 
